@@ -22,6 +22,16 @@ def with_tag(v, tag):
     return tuple(v[:6]) + (tag,) if len(v) >= 6 else ('adt', v[1], v[2], v[3], None, (), tag)
 
 
+def ws_resolved(an, c):
+    """the call resolves to a function whose body is in the analysed workspace"""
+    p_ = c.get('res')
+    if not p_:
+        return False
+    from .lir import strip_turbofish
+    l_ = an.prog.by_short.get(strip_turbofish(p_))
+    return bool(l_) and len(l_) == 1
+
+
 def mk_option(payload, variants=None):
     return ('adt', OPT, variants, {(1, '0'): payload} if payload is not None else {}, None, ())
 
@@ -497,7 +507,7 @@ def register(an):
            'core::borrow::Borrow::borrow', 'core::ops::deref::Deref::deref', 'core::ops::deref::DerefMut::deref_mut',
            'heapless::vec::VecInner::as_slice', 'heapless::vec::VecInner::as_mut_slice')
     def m_as_slice(an, t, args, frame, st, c):
-        if c.get('res') and c.get('res_local'):
+        if ws_resolved(an, c):
             return NotImplemented
         ty = an.subst_ty(t.dest.ty, frame)
         pt = parse_ty(ty)
@@ -718,7 +728,7 @@ def register(an):
     @model('core::cmp::PartialEq::eq', 'core::cmp::PartialEq::ne', 'core::cmp::PartialOrd::lt', 'core::cmp::PartialOrd::le', 'core::cmp::PartialOrd::gt',
            'core::cmp::PartialOrd::ge')
     def m_cmp(an, t, args, frame, st, c):
-        if c.get('res') and c.get('res_local'):
+        if ws_resolved(an, c):
             return NotImplemented
         a = deref_val(an, args[0], frame, st)
         b = deref_val(an, args[1], frame, st)
@@ -729,7 +739,7 @@ def register(an):
 
     @model('core::clone::Clone::clone')
     def m_clone(an, t, args, frame, st, c):
-        if c.get('res') and c.get('res_local'):
+        if ws_resolved(an, c):
             # derived / hand-written Clone in the workspace: the value is copied structurally
             return deref_val(an, args[0], frame, st)
         return deref_val(an, args[0], frame, st)
@@ -747,6 +757,17 @@ def register(an):
         if ty.startswith('heapless::vec::VecInner') or ty.startswith('heapless::Vec'):
             return make_hvec(an, ty, st, Lin.const(0))
         return NotImplemented
+
+    @model('core::intrinsics::discriminant_value')
+    def m_discriminant_value(an, t, args, frame, st, c):
+        v = deref_val(an, args[0], frame, st)
+        if v[0] == 'adt' and v[2] is not None:
+            a = an.prog.adts.get(v[1])
+            if a is not None:
+                vals = {a['variants'][i]['discr'] for i in v[2] if i < len(a['variants'])}
+                ty = an.subst_ty(t.dest.ty, frame)
+                return an._from_set(st, ty if ty in INT_RANGES else 'isize', vals)
+        return None
 
     @model('core::mem::size_of')
     def m_size_of(an, t, args, frame, st, c):
@@ -941,7 +962,7 @@ def register(an):
     @suffix('core::iter::traits::iterator::Iterator::next', 'core::iter::adapters::peekable::Peekable::peek', 'core::iter::traits::double_ended::DoubleEndedIterator::next_back',
             'core::iter::adapters::peekable::Peekable::next_if')
     def m_next(an, t, args, frame, st, c):
-        if c.get('res') and c.get('res_local'):
+        if ws_resolved(an, c):
             return NotImplemented     # a workspace iterator: analyse its `next`
         it = to_iter(an, args[0], frame, st)
         an.loop_iterators.add((frame.body.path, t.sp))
@@ -1209,7 +1230,7 @@ def register(an):
     @suffix('core::future::into_future::IntoFuture::into_future', 'core::pin::Pin::new_unchecked', 'core::pin::Pin::new', 'core::pin::Pin::get_unchecked_mut',
             'core::pin::Pin::get_mut', 'core::pin::Pin::as_mut', 'core::pin::Pin::into_inner')
     def m_identity(an, t, args, frame, st, c):
-        if c.get('res') and c.get('res_local'):
+        if ws_resolved(an, c):
             return NotImplemented
         return args[0]
 
